@@ -36,6 +36,18 @@ R10 client_accepts() / client_prefers() answer by negotiation over the whole
     guarded by the EQUALITY of the whole header with the requested type or
     '*/*' - a substring / prefix / piece test deciding it is a violation
 
+R11 the weight stored for a range is the float parsed from the q text itself
+R12 every consumer of a Handlers mapping (attribute `media_handlers` of the
+    options classes, typed from their __init__) obtains a handler through
+    `_resolve(...)`: a plain mapping read (.get / [...] / .items / .values /
+    .data) anywhere in the package outside falcon/media/handlers.py is a
+    violation; registrations and key enumerations are tabled; WebSocketOptions'
+    plain dict is out of scope
+R13 _MediaRange.parse() is evaluated (concrete interpreter _ParseModel) on every
+    ordered subset of the parameter names {a, q, b}: the params slot of the
+    range built is the parsed mapping minus exactly the key 'q' - parameters
+    written after q take part in matching like the others
+
 R4 also decides the escape set of the resolver closure (through the bridge
 helper _best_match and mediatypes.best_match): only HTTPUnsupportedMediaType
 leaves it - "the designated handler or a 415".
@@ -4858,6 +4870,982 @@ def r10_negotiated_answers(run):
             _negotiated_answers(run, p, f, name, NEGOTIATORS[name])
 
 
+# ---------------------------------------------------------------------------
+# R12 every consumer of a Handlers mapping looks a handler up through the
+# resolver (added after seeded change s8-c11-1: the ASGI server-sent-events
+# branch fetched the JSON handler with `media_handlers.get(MEDIA_JSON)`)
+# ---------------------------------------------------------------------------
+#
+# "Resolving a content type returns the handler the current mapping designates
+# by the matching rule" holds for a consumer only if it ASKS the resolver.  A
+# plain mapping read sees exact keys only, so a handler registered as
+# 'application/json; charset=utf-8' or 'application/*' is found by resp.media
+# (which resolves) and missed by the consumer that reads the dict.
+#
+# The rule sweeps the whole package (falcon/media/handlers.py itself - the
+# implementation of the mapping, decided by R3/R4 - excepted) for reads of an
+# attribute named `media_handlers`:
+#   * the owner classes are the classes whose __init__ stores
+#     `self.media_handlers = ...`; the stored value says whether the attribute
+#     is a Handlers (a constructor call of Handlers or `<class attr that is a
+#     Handlers(...)>.copy()`) or a plain mapping (dict display / dict(...):
+#     WebSocketOptions, keyed by payload type, has no matching rule);
+#   * the receiver of `.media_handlers` is typed through the attribute / the
+#     parameter it is read from: class-level annotations `name: T`,
+#     `self.name = T()` / `self.name = param` with an annotated parameter,
+#     annotated parameters, locals bound once;
+#   * each read is classified by what is done with it (frozen tables below):
+#     `._resolve(...)` is a lookup through the resolver; registrations / removals
+#     and key enumerations (`for k in h`, `k in h`, len(), list(), .keys())
+#     obtain no handler by key; `.get(k)`, `h[k]`, `.items()`, `.values()`,
+#     `.data` hand out a handler by EXACT key -> violation when the mapping is a
+#     Handlers; anything else (passed on to a call, stored in an attribute,
+#     returned) is an unknown idiom when the mapping is - or may be - a
+#     Handlers, and ignored when it is a plain mapping.
+
+RESOLVE_USES = {RESOLVER: 'asks the resolver'}
+REGISTRATION_USES = {
+    'update': 'registers handlers', '__setitem__': 'registers a handler', 'setdefault': 'registers a default handler',
+    'pop': 'removes a handler', 'popitem': 'removes a handler', 'clear': 'removes the handlers', '__delitem__': 'removes a handler',
+    'copy': 'copies the mapping (R3: through the constructor)',
+}
+KEY_USES = {'keys': 'enumerates the registered keys', '__iter__': 'enumerates the registered keys', '__len__': 'counts the keys',
+            '__contains__': 'exact-key membership (no handler obtained)'}
+KEY_CALLS = ('list', 'tuple', 'sorted', 'set', 'frozenset', 'len', 'iter', 'reversed', 'enumerate', 'bool')
+EXACT_READS = {
+    'get': 'dict.get() sees exact keys only', '__getitem__': 'subscripting sees exact keys only',
+    'items': 'hands out the handlers by exact key', 'values': 'hands out the handlers without matching',
+    DATA: 'reads the underlying dict: exact keys only',
+}
+_R12_WITNESS = "resp_options.media_handlers = Handlers({'application/json; charset=utf-8': custom}) (or 'application/*'): resp.media is " \
+               'serialised by `custom` (the resolver matches it), the consumer that reads the dict gets None / KeyError and uses the ' \
+               'builtin handler instead'
+_R12_SKIP_MODULES = ('falcon.media.handlers',)
+_R12_OUT_OF_SCOPE = ('falcon.bench', 'falcon.cmd')
+
+
+def _classes_in_annotation(p, module, ann, func=None) -> Set[str]:
+    """qualified names of the package classes mentioned in an annotation (Optional[T], 'T', T | None ...)"""
+    if isinstance(ann, ast.Constant) and isinstance(ann.value, str):
+        try:
+            ann = ast.parse(ann.value, mode='eval').body
+        except SyntaxError:
+            return set()
+    out = set()
+    for n in ast.walk(ann):
+        if isinstance(n, (ast.Name, ast.Attribute)):
+            q = p.resolve_expr(module, n, func)
+            if q in p.classes:
+                out.add(q)
+    return out
+
+
+class _HandlersTyping:
+    """Who owns a `media_handlers`, of which kind, and which attribute / parameter holds such an owner."""
+
+    def __init__(self, p):
+        self.p = p
+        self.kind: Dict[str, str] = {}           # owner class qual -> 'handlers' | 'plain'
+        self.why: Dict[str, str] = {}
+        for cq, c in sorted(p.classes.items()):
+            if cq.startswith(_R12_OUT_OF_SCOPE) or c.module.name in _R12_SKIP_MODULES:
+                continue
+            init = c.methods.get('__init__')
+            if init is None:
+                continue
+            a = init.node.args
+            pos = a.posonlyargs + a.args
+            if not pos:
+                continue
+            me = pos[0].arg
+            vals = [v for n in walk_self(init.node) if isinstance(n, (ast.Assign, ast.AnnAssign)) and n.value is not None
+                    for t in (n.targets if isinstance(n, ast.Assign) else [n.target])
+                    if isinstance(t, ast.Attribute) and t.attr == HANDLERS_ATTR and isinstance(t.value, ast.Name) and t.value.id == me
+                    for v in [n.value]]
+            if not vals:
+                continue
+            kinds = {self._value_kind(c, init, v) for v in vals}
+            if len(kinds) != 1:
+                raise UnknownIdiom('%s.__init__ stores %s of different kinds' % (cq, HANDLERS_ATTR))
+            self.kind[cq] = kinds.pop()
+            self.why[cq] = short(vals[0], 60)
+        if not any(k == 'handlers' for k in self.kind.values()):
+            raise AnchorError('no class whose __init__ stores self.%s = Handlers(...)' % HANDLERS_ATTR)
+        # attribute name -> owner classes an attribute of that name may hold
+        self.attr_types: Dict[str, Set[str]] = {}
+        for cq, c in p.classes.items():
+            if cq.startswith(_R12_OUT_OF_SCOPE):
+                continue
+            for s in c.node.body:
+                if isinstance(s, ast.AnnAssign) and isinstance(s.target, ast.Name):
+                    for t in _classes_in_annotation(p, c.module, s.annotation):
+                        if t in self.kind:
+                            self.attr_types.setdefault(s.target.id, set()).add(t)
+            for m in c.methods.values():
+                ma = m.node.args
+                mpos = ma.posonlyargs + ma.args
+                if not mpos:
+                    continue
+                for n in walk_self(m.node):
+                    if not isinstance(n, (ast.Assign, ast.AnnAssign)) or n.value is None:
+                        continue
+                    for t in (n.targets if isinstance(n, ast.Assign) else [n.target]):
+                        if isinstance(t, ast.Attribute) and isinstance(t.value, ast.Name) and t.value.id == mpos[0].arg:
+                            for o in self._expr_owners(m, n.value, 0, stored=True) or ():
+                                self.attr_types.setdefault(t.attr, set()).add(o)
+
+    def _value_kind(self, c: Class, init: Func, v) -> str:
+        p = self.p
+        v = _unwrap_cast(v)
+        if isinstance(v, (ast.Dict, ast.DictComp)):
+            return 'plain'
+        if isinstance(v, ast.Call):
+            t = p.resolve_callable(init, v.func)
+            if isinstance(t, Class):
+                if t.qual == HANDLERS or p.is_subclass(t.qual, HANDLERS):
+                    return 'handlers'
+            if t in ('builtins.dict', 'collections.OrderedDict'):
+                return 'plain'
+            if isinstance(v.func, ast.Attribute) and v.func.attr == 'copy' and not v.args and not v.keywords:
+                ch = attr_chain_of(v.func.value)
+                if ch and len(ch) == 2 and ch[0] in (init.node.args.args[0].arg, c.node.name):
+                    kinds = self._class_attr_kinds(c, init, ch[1])
+                    if len(kinds) == 1:
+                        return kinds.pop()
+        raise UnknownIdiom('%s.__init__: value of self.%s (%s) is neither a Handlers(...) nor a dict' % (c.qual, HANDLERS_ATTR, short(v, 60)))
+
+    def _class_attr_kinds(self, c: Class, init: Func, name: str) -> Set[str]:
+        """kinds of the values a class attribute is given: in the class body (also under `if TYPE_CHECKING`; a None placeholder
+        is skipped), by its annotation, and by module-level stores `Class.name = value` anywhere in the package"""
+        p = self.p
+        kinds: Set[str] = set()
+        for s in ast.walk(c.node):
+            if isinstance(s, ast.AnnAssign) and isinstance(s.target, ast.Name) and s.target.id == name:
+                if HANDLERS in _classes_in_annotation(p, c.module, s.annotation):
+                    kinds.add('handlers')
+                if s.value is not None and not (isinstance(s.value, ast.Constant) and s.value.value is None):
+                    kinds.add(self._value_kind(c, init, s.value))
+            elif isinstance(s, ast.Assign) and any(isinstance(t, ast.Name) and t.id == name for t in s.targets):
+                if not (isinstance(s.value, ast.Constant) and s.value.value is None):
+                    kinds.add(self._value_kind(c, init, s.value))
+        for mod in p.modules.values():
+            for s in mod.tree.body:
+                if isinstance(s, ast.Assign):
+                    for t in s.targets:
+                        if isinstance(t, ast.Attribute) and t.attr == name and p.resolve_expr(mod, t.value) == c.qual:
+                            kinds.add(self._value_kind(c, _ModFunc(mod), s.value))
+        return kinds
+
+    def _expr_owners(self, f: Func, e, depth=0, stored=False) -> Optional[Set[str]]:
+        """owner classes the value of `e` may be an instance of; None when that cannot be told"""
+        p = self.p
+        if depth > 8:
+            return None
+        e = _unwrap_cast(e)
+        if isinstance(e, ast.Call):
+            t = p.resolve_callable(f, e.func)
+            if isinstance(t, Class):
+                return {t.qual} if t.qual in self.kind else (None if not stored else set())
+            return None if not stored else set()
+        if isinstance(e, (ast.IfExp, ast.BoolOp)):
+            parts = [e.body, e.orelse] if isinstance(e, ast.IfExp) else e.values
+            out: Set[str] = set()
+            for x in parts:
+                if isinstance(x, ast.Constant) and x.value is None:
+                    continue
+                o = self._expr_owners(f, x, depth + 1, stored)
+                if o is None:
+                    return None
+                out |= o
+            return out
+        if isinstance(e, ast.Name):
+            a = f.node.args
+            for prm in a.posonlyargs + a.args + a.kwonlyargs:
+                if prm.arg == e.id:
+                    if _assignments(f.node, e.id):
+                        return None if not stored else set()
+                    if prm.annotation is None:
+                        return None if not stored else set()
+                    o = {t for t in _classes_in_annotation(p, f.module, prm.annotation, f) if t in self.kind}
+                    return o if o or stored else None
+            if stored:
+                return set()
+            binds = _assignments(f.node, e.id)
+            if len(binds) == 1 and binds[0][1] is not None:
+                return self._expr_owners(f, binds[0][1], depth + 1)
+            return None
+        if isinstance(e, ast.Attribute):
+            if stored:
+                return set()
+            o = self.attr_types.get(e.attr)
+            return set(o) if o else None
+        return None if not stored else set()
+
+    def receiver_kind(self, f: Func, recv) -> str:
+        """'handlers' | 'plain' | 'unknown' for the object `.media_handlers` is read from"""
+        a = f.node.args
+        pos = a.posonlyargs + a.args
+        if isinstance(recv, ast.Name) and pos and recv.id == pos[0].arg and f.cls is not None and f.parent is None:
+            owners = {q for q in self.kind if q == f.cls.qual or self.p.is_subclass(f.cls.qual, q)}
+        else:
+            owners = self._expr_owners(f, recv)
+        if not owners:
+            return 'unknown'
+        kinds = {self.kind[o] for o in owners}
+        return kinds.pop() if len(kinds) == 1 else 'unknown'
+
+
+def attr_chain_of(e) -> Optional[Tuple[str, ...]]:
+    out = []
+    while isinstance(e, ast.Attribute):
+        out.append(e.attr)
+        e = e.value
+    if isinstance(e, ast.Name):
+        out.append(e.id)
+        return tuple(reversed(out))
+    return None
+
+
+def _use_of(f: Func, node, parent, depth=0):
+    """(category, detail, construct node) of every use of the mapping value `node`;
+    category in resolve / registration / keys / exact / define / other."""
+    par = parent.get(id(node))
+    if isinstance(par, ast.Call) and par.func is not node and (dotted(par.func) or '').split('.')[-1] == 'cast' and len(par.args) == 2 \
+            and par.args[1] is node:
+        yield from _use_of(f, par, parent, depth)
+        return
+    if isinstance(par, ast.Attribute) and par.value is node:
+        if isinstance(par.ctx, ast.Load):
+            for table, cat in ((RESOLVE_USES, 'resolve'), (REGISTRATION_USES, 'registration'), (KEY_USES, 'keys'), (EXACT_READS, 'exact')):
+                if par.attr in table:
+                    gp = parent.get(id(par))
+                    cons = gp if isinstance(gp, ast.Call) and gp.func is par else par
+                    if par.attr == DATA:
+                        cons = par
+                    yield cat, '.%s: %s' % (par.attr, table[par.attr]), cons
+                    return
+        yield 'other', 'attribute .%s' % par.attr, par
+        return
+    if isinstance(par, ast.Subscript) and par.value is node:
+        if isinstance(par.ctx, ast.Load):
+            yield 'exact', '[...]: %s' % EXACT_READS['__getitem__'], par
+        else:
+            yield 'registration', '[...] = / del: %s' % REGISTRATION_USES['__setitem__'], par
+        return
+    if isinstance(par, ast.Compare) and node in par.comparators and len(par.ops) == 1 and isinstance(par.ops[0], (ast.In, ast.NotIn)):
+        yield 'keys', 'in: %s' % KEY_USES['__contains__'], par
+        return
+    if isinstance(par, (ast.For, ast.AsyncFor, ast.comprehension)) and par.iter is node:
+        yield 'keys', 'iteration: %s' % KEY_USES['__iter__'], node
+        return
+    if isinstance(par, ast.Call) and node in par.args and isinstance(par.func, ast.Name) and par.func.id in KEY_CALLS \
+            and not _assignments(f.node, par.func.id):
+        yield 'keys', '%s(): %s' % (par.func.id, KEY_USES['__iter__']), par
+        return
+    if isinstance(par, ast.Starred) and par.value is node:
+        yield 'keys', 'unpacking: %s' % KEY_USES['__iter__'], par
+        return
+    if isinstance(par, (ast.Assign, ast.AnnAssign)) and par.value is node:
+        targets = par.targets if isinstance(par, ast.Assign) else [par.target]
+        if len(targets) == 1 and isinstance(targets[0], ast.Name) and depth < 4:
+            name = targets[0].id
+            binds = _assignments(f.node, name)
+            if len(binds) == 1 and name not in {x.arg for x in f.node.args.posonlyargs + f.node.args.args + f.node.args.kwonlyargs}:
+                loads = [n for n in walk_self(f.node) if isinstance(n, ast.Name) and n.id == name and isinstance(n.ctx, ast.Load)]
+                nested_reads = [n for g in f.nested.values() for n in ast.walk(g.node) if isinstance(n, ast.Name) and n.id == name]
+                if not nested_reads:
+                    for ld in loads:
+                        yield from _use_of(f, ld, parent, depth + 1)
+                    return
+        yield 'other', 'stored: %s' % short(par, 60), par
+        return
+    if isinstance(par, (ast.Assign, ast.AnnAssign, ast.AugAssign, ast.Delete)) and not isinstance(getattr(node, 'ctx', ast.Load()), ast.Load):
+        yield 'define', 'the attribute itself is (re)bound', par
+        return
+    if isinstance(par, ast.Expr):
+        yield 'keys', 'bare expression', par
+        return
+    yield 'other', 'used in %s' % short(par, 60) if par is not None else 'unknown context', par if par is not None else node
+
+
+def r12_lookups_through_resolver(run):
+    """Every consumer of a Handlers mapping (attribute `media_handlers` of the options classes) that obtains a handler FOR USE
+    asks `_resolve(...)`; a plain mapping read (`.get(k)`, `[k]`, `.items()`, `.values()`, `.data`) outside falcon/media/handlers.py
+    is a violation.  W: handlers registered under 'application/json; charset=utf-8' only - resp.media uses it, an SSE event
+    serialised through `media_handlers.get(MEDIA_JSON)` does not."""
+    p = run.project
+    typing_ = _HandlersTyping(p)
+    for cq, k in sorted(typing_.kind.items()):
+        run.ok('%s.%s is a %s' % (cq.rsplit('.', 1)[-1], HANDLERS_ATTR, 'Handlers mapping (matching rule applies)' if k == 'handlers'
+                                  else 'plain mapping (no matching rule; out of scope)'), p.cls(cq).methods['__init__'].loc(), typing_.why[cq])
+    n_resolve = 0
+    for mname, mod in sorted(p.modules.items()):
+        if mname.startswith(_R12_OUT_OF_SCOPE) or mname in _R12_SKIP_MODULES:
+            continue
+        all_nodes = [n for n in ast.walk(mod.tree) if isinstance(n, ast.Attribute) and n.attr == HANDLERS_ATTR]
+        if not all_nodes:
+            continue
+        seen = set()
+        for f in mod.all_funcs:
+            nodes = [n for n in walk_self(f.node) if isinstance(n, ast.Attribute) and n.attr == HANDLERS_ATTR]
+            if not nodes:
+                continue
+            run.use(f)
+            parent = enclosing_map(f.node)
+            for node in nodes:
+                seen.add(id(node))
+                if not isinstance(node.ctx, ast.Load):
+                    continue            # (re)binding of the attribute: the owners' __init__ stores are read by _HandlersTyping
+                kind = typing_.receiver_kind(f, node.value)
+                for cat, detail, cons in _use_of(f, node, parent):
+                    if kind == 'plain':
+                        continue
+                    if cat == 'exact':
+                        if kind == 'unknown':
+                            raise UnknownIdiom('%s: %s reads a %s whose owner the rule cannot type' % (f.qual, short(cons, 70), HANDLERS_ATTR))
+                        run.fail('a handler is obtained from a Handlers mapping through the resolver (the matching rule: exact key, '
+                                 'else best match, else the default), never by a plain mapping read', f, cons, where=f.loc(cons),
+                                 witness=['%s is a Handlers mapping (%s)' % (short(node, 60), detail)], runtime_witness=_R12_WITNESS)
+                    elif cat == 'resolve':
+                        n_resolve += 1
+                        run.ok('%s obtains its handler through the resolver' % f.name, f.loc(cons), short(cons, 100))
+                    elif cat in ('registration', 'keys'):
+                        run.ok('%s: no handler is looked up by key (%s)' % (f.name, detail), f.loc(cons), short(cons, 100))
+                    elif cat == 'define':
+                        continue
+                    else:
+                        raise UnknownIdiom('%s: %s of a %s mapping (%s) - not a resolver call, registration, key enumeration or '
+                                           'plain read' % (f.qual, detail, kind, short(cons, 70)))
+        rest = [n for n in all_nodes if id(n) not in seen]
+        if rest:
+            raise UnknownIdiom('%s: %s used outside a function (%s)' % (mname, HANDLERS_ATTR, short(rest[0], 60)))
+    if n_resolve < 1:
+        raise AnchorError('no consumer of a Handlers mapping calls %s' % RESOLVER)
+
+
+# ---------------------------------------------------------------------------
+# R13 every parsed parameter other than q takes part in matching (added after
+# seeded change s8-c11-2: _MediaRange.parse() dropped the parameters written
+# AFTER `q=`, an RFC 7231 accept-ext reading that RFC 9110 removed)
+# ---------------------------------------------------------------------------
+#
+# match_score() ranks by "exact parameter match, number of matching
+# parameters" and refuses a shared parameter with another value - over
+# `self.params`.  That is the documented rule only if the params a range is
+# built with are ALL the parameters the header helper parsed, minus the weight:
+# the position of `q` among them means nothing.  Decided by evaluating
+# _MediaRange.parse() itself (a concrete interpreter, _ParseModel; nothing from
+# the analysed tree is executed - the header helper is replaced by the input of
+# the model, the constructor by a recorder) on every ORDERED subset of the
+# parameter names {'a', 'q', 'b'} (q valid): the params slot of the range built
+# must equal the parsed mapping minus exactly the key 'q'.  A statement outside
+# the interpreter's language is an unknown idiom.
+
+_R13_WITNESS = "quality('text/html', 'text/html;q=0.5;level=1, text/html;q=0.2') is 0.5 instead of 0.2; with Accept " \
+               "'text/plain;q=0.8;format=flowed, */*;q=0' the refused 'text/plain;format=fixed' is accepted with q=0.8"
+_PM_SOURCES = {MEDIATYPES + '._parse_media_type_header': lambda items: ('t', 's', dict(items)),
+               MEDIATYPES + '.parse_header': lambda items: ('t/s', dict(items))}
+_PM_BUILTINS = ('float', 'int', 'str', 'bool', 'list', 'dict', 'tuple', 'set', 'frozenset', 'sorted', 'len', 'iter', 'next', 'enumerate',
+                'zip', 'range', 'reversed', 'min', 'max', 'any', 'all', 'sum', 'abs', 'isinstance', 'filter', 'map',
+                'Exception', 'ValueError', 'TypeError', 'KeyError', 'IndexError', 'LookupError', 'StopIteration', 'AttributeError',
+                'ArithmeticError', 'OverflowError', 'RuntimeError', 'BaseException')
+_PM_MODULES = ('math', 'itertools', 'operator')
+_PM_DATA = (dict, list, tuple, str, set, frozenset, float, int, bool, type(None))
+
+
+class _PMRaise(Exception):
+    """the interpreted function raises `value` (a real builtin exception instance or a _PMPkgExc)"""
+
+    def __init__(self, value):
+        Exception.__init__(self)
+        self.value = value
+
+
+class _PMReturn(Exception):
+    def __init__(self, value):
+        Exception.__init__(self)
+        self.value = value
+
+
+class _PMBreak(Exception):
+    pass
+
+
+class _PMContinue(Exception):
+    pass
+
+
+class _PMPkgClass:
+    def __init__(self, qual):
+        self.qual = qual
+
+
+class _PMModule:
+    def __init__(self, module):
+        self.module = module
+
+
+class _PMPkgExc:
+    def __init__(self, qual):
+        self.qual = qual
+
+
+class _PMSource:
+    def __init__(self, qual):
+        self.qual = qual
+
+
+class _PMBuilt:
+    def __init__(self, slots, call):
+        self.slots, self.call = slots, call
+
+
+class _ParseModel:
+    """Concrete interpreter of one small function over plain data (dict / list / tuple / str / set / numbers).
+
+    statements: assignments (names, tuple targets, subscripts; annotated, augmented), del, expression statements, if, for, while
+    (bounded), try/except/else/finally, raise [from], return, break, continue, pass.
+    expressions: constants, locals, displays, comprehensions, subscripts and slices, comparisons, and/or/not, arithmetic,
+    conditional expressions, := , lambdas, f-strings, calls of: the tabled builtins (_PM_BUILTINS), math / itertools / operator
+    functions, public methods of the data values, the header helper (-> the model input), the range constructor (-> recorded),
+    exception classes of the package (-> a token)."""
+
+    MAX_STEPS = 4000
+
+    def __init__(self, p, f: Func, rc: Class, slots: List[str]):
+        self.p, self.f, self.rc, self.slots = p, f, rc, slots
+        a = f.node.args
+        pos = a.posonlyargs + a.args
+        if len(pos) != 2 or a.vararg or a.kwarg or a.kwonlyargs or not any('classmethod' in d for d in f.decorators):
+            raise UnknownIdiom('%s is not a classmethod of one argument' % f.qual)
+        self.clsname, self.argname = pos[0].arg, pos[1].arg
+        self.items = ()
+        self.removed: List[Tuple[ast.AST, object]] = []
+        self.sources = 0
+        self.steps = 0
+        self.node = None
+        self.callnode = None
+
+    # -- driver
+    def run(self, items):
+        self.items = tuple(items)
+        self.removed = []
+        self.sources = 0
+        self.steps = 0
+        env = {self.argname: 'r'}
+        try:
+            self.block(self.f.node.body, env)
+        except _PMReturn as r:
+            return 'returned', r.value
+        except _PMRaise as r:
+            return 'raised', r.value
+        except (_PMBreak, _PMContinue):
+            raise _OutOfModel('break / continue outside a loop')
+        return 'returned', None
+
+    def tick(self, node):
+        self.steps += 1
+        self.node = node
+        if self.steps > self.MAX_STEPS:
+            raise _OutOfModel('too many steps (a loop that does not end on the model input?)')
+
+    # -- calls of real (pure, tabled) callables
+    def native(self, fn, args, kwargs, node):
+        try:
+            return fn(*args, **kwargs)
+        except (_OutOfModel, _PMRaise, AnalysisError):
+            raise
+        except (_PMReturn, _PMBreak, _PMContinue):
+            raise _OutOfModel('control flow out of a callback in %s' % short(node, 60))
+        except RecursionError:
+            raise
+        except Exception as ex:  # noqa: BLE001 - what the builtin operation raises is what the function sees
+            raise _PMRaise(ex)
+
+    def logged_method(self, obj, name, node):
+        m = getattr(obj, name)
+        if isinstance(obj, dict) and name in ('pop', 'popitem', 'clear', '__delitem__'):
+            def wrapper(*a, **k):
+                before = dict(obj)
+                r = m(*a, **k)
+                for key in before:
+                    if key not in obj:
+                        self.removed.append((self.callnode if isinstance(node, ast.Attribute) and self.callnode is not None else node, key))
+                return r
+            return wrapper
+        return m
+
+    # -- expressions
+    def name(self, e, env):
+        if e.id in env:
+            return env[e.id]
+        if e.id == self.clsname:
+            return _PMPkgClass(self.rc.qual)
+        if e.id in local_names_bound(self.f):
+            raise _PMRaise(UnboundLocalError(e.id))
+        q = self.p.resolve_expr(self.f.module, e, self.f)
+        return self.resolved(q, e)
+
+    def resolved(self, q, e):
+        import builtins
+        import importlib
+        if q is None:
+            raise _OutOfModel('name %s' % short(e, 40))
+        if q in self.p.classes:
+            return _PMPkgClass(q)
+        if q in _PM_SOURCES:
+            return _PMSource(q)
+        if q.startswith('builtins.') and q[9:] in _PM_BUILTINS:
+            return getattr(builtins, q[9:])
+        mod, _, attr = q.rpartition('.')
+        if mod in _PM_MODULES and not attr.startswith('_'):
+            m = importlib.import_module(mod)           # stdlib only; never the analysed tree
+            if hasattr(m, attr):
+                return getattr(m, attr)
+        raise _OutOfModel('%s (%s) is outside the modelled language' % (short(e, 40), q))
+
+    def ev(self, e, env):
+        self.tick(e)
+        e = _unwrap_cast(e)
+        if isinstance(e, ast.Constant):
+            return e.value
+        if isinstance(e, ast.Name):
+            return self.name(e, env)
+        if isinstance(e, ast.Attribute):
+            ch = attr_chain_of(e)
+            if ch is not None and ch[0] not in env and ch[0] != self.clsname:
+                q = self.p.resolve_expr(self.f.module, e, self.f)
+                if q is not None:
+                    return self.resolved(q, e)
+            base = self.ev(e.value, env)
+            if isinstance(base, _PMPkgClass):
+                c, v = self.p.lookup_class_attr(base.qual, e.attr)
+                if v is not None:
+                    k = self.p.fold(c.module, v, c, None)
+                    return k if k is not UNKNOWN else '<%s.%s>' % (c.node.name, e.attr)
+                raise _OutOfModel('%s' % short(e, 60))
+            if isinstance(base, _PMModule) and not e.attr.startswith('_') and hasattr(base.module, e.attr):
+                return getattr(base.module, e.attr)
+            if isinstance(base, _PM_DATA) and not e.attr.startswith('_'):
+                try:
+                    return self.logged_method(base, e.attr, e)
+                except AttributeError as ex:
+                    raise _PMRaise(ex)
+            raise _OutOfModel('attribute %s' % short(e, 60))
+        if isinstance(e, ast.Call):
+            return self.call(e, env)
+        if isinstance(e, ast.Subscript):
+            v = self.ev(e.value, env)
+            i = self.index(e.slice, env)
+            if not isinstance(v, _PM_DATA):
+                raise _OutOfModel('subscript of %s' % short(e.value, 40))
+            return self.native(lambda: v[i], (), {}, e)
+        if isinstance(e, (ast.Tuple, ast.List, ast.Set)):
+            out = []
+            for x in e.elts:
+                if isinstance(x, ast.Starred):
+                    out.extend(self.native(list, (self.ev(x.value, env),), {}, x))
+                else:
+                    out.append(self.ev(x, env))
+            return tuple(out) if isinstance(e, ast.Tuple) else (out if isinstance(e, ast.List) else self.native(set, (out,), {}, e))
+        if isinstance(e, ast.Dict):
+            d = {}
+            for k, v in zip(e.keys, e.values):
+                if k is None:
+                    d.update(self.native(dict, (self.ev(v, env),), {}, e))
+                else:
+                    kk = self.ev(k, env)
+                    d[kk] = self.ev(v, env)
+            return d
+        if isinstance(e, ast.Compare):
+            left = self.ev(e.left, env)
+            for op, ce in zip(e.ops, e.comparators):
+                right = self.ev(ce, env)
+                if isinstance(op, (ast.Is, ast.IsNot)):
+                    t = (left is right) or (left == right and isinstance(left, (bool, type(None), str, int)) and type(left) is type(right))
+                    t = t if isinstance(op, ast.Is) else not t
+                elif isinstance(op, (ast.In, ast.NotIn)):
+                    t = self.native(lambda: left in right, (), {}, e)
+                    t = t if isinstance(op, ast.In) else not t
+                else:
+                    fn = _CMP_OPS.get(type(op))
+                    if fn is None:
+                        raise _OutOfModel('comparison %s' % short(e, 60))
+                    t = self.native(fn, (left, right), {}, e)
+                if not t:
+                    return False
+                left = right
+            return True
+        if isinstance(e, ast.BoolOp):
+            v = None
+            for x in e.values:
+                v = self.ev(x, env)
+                if bool(v) != isinstance(e.op, ast.And):
+                    return v
+            return v
+        if isinstance(e, ast.UnaryOp):
+            v = self.ev(e.operand, env)
+            if isinstance(e.op, ast.Not):
+                return not v
+            import operator
+            fn = {ast.USub: operator.neg, ast.UAdd: operator.pos, ast.Invert: operator.invert}[type(e.op)]
+            return self.native(fn, (v,), {}, e)
+        if isinstance(e, ast.BinOp):
+            import operator
+            ops = {ast.Add: operator.add, ast.Sub: operator.sub, ast.Mult: operator.mul, ast.Div: operator.truediv,
+                   ast.FloorDiv: operator.floordiv, ast.Mod: operator.mod, ast.BitOr: operator.or_, ast.BitAnd: operator.and_,
+                   ast.BitXor: operator.xor}
+            if type(e.op) not in ops:
+                raise _OutOfModel('operator in %s' % short(e, 60))
+            return self.native(ops[type(e.op)], (self.ev(e.left, env), self.ev(e.right, env)), {}, e)
+        if isinstance(e, ast.IfExp):
+            return self.ev(e.body if self.ev(e.test, env) else e.orelse, env)
+        if isinstance(e, ast.NamedExpr) and isinstance(e.target, ast.Name):
+            v = self.ev(e.value, env)
+            env[e.target.id] = v
+            return v
+        if isinstance(e, ast.Lambda):
+            la = e.args
+            if la.vararg or la.kwarg or la.kwonlyargs or la.defaults:
+                raise _OutOfModel('lambda %s' % short(e, 60))
+            names = [x.arg for x in la.posonlyargs + la.args]
+
+            def fn(*args):
+                if len(args) != len(names):
+                    raise TypeError('lambda arity')
+                inner = dict(env)
+                inner.update(zip(names, args))
+                return self.ev(e.body, inner)
+            return fn
+        if isinstance(e, (ast.ListComp, ast.SetComp, ast.GeneratorExp, ast.DictComp)):
+            out: list = []
+            self.comp(e, e.generators, dict(env), out)
+            if isinstance(e, ast.ListComp):
+                return out
+            if isinstance(e, ast.SetComp):
+                return self.native(set, (out,), {}, e)
+            if isinstance(e, ast.DictComp):
+                return self.native(dict, (out,), {}, e)
+            return iter(out)
+        if isinstance(e, ast.JoinedStr):
+            return ''.join(str(x.value) if isinstance(x, ast.Constant) else '<fmt>' for x in e.values)
+        raise _OutOfModel('%s expression %s' % (type(e).__name__, short(e, 60)))
+
+    def comp(self, e, gens, env, out):
+        if not gens:
+            if isinstance(e, ast.DictComp):
+                k = self.ev(e.key, env)
+                out.append((k, self.ev(e.value, env)))
+            else:
+                out.append(self.ev(e.elt, env))
+            return
+        g = gens[0]
+        if g.is_async:
+            raise _OutOfModel('async comprehension')
+        it = self.native(iter, (self.ev(g.iter, env),), {}, g.iter)
+        while True:
+            self.tick(g.iter)
+            try:
+                item = self.native(next, (it,), {}, g.iter)
+            except _PMRaise as r:
+                if isinstance(r.value, StopIteration):
+                    break
+                raise
+            self.bind(g.target, item, env)
+            if all(self.ev(c, env) for c in g.ifs):
+                self.comp(e, gens[1:], env, out)
+
+    def index(self, s, env):
+        if isinstance(s, ast.Slice):
+            return slice(*(None if x is None else self.ev(x, env) for x in (s.lower, s.upper, s.step)))
+        return self.ev(s, env)
+
+    def call(self, e, env):
+        fn = self.ev(e.func, env)
+        args = []
+        for a in e.args:
+            if isinstance(a, ast.Starred):
+                args.extend(self.native(list, (self.ev(a.value, env),), {}, a))
+            else:
+                args.append(self.ev(a, env))
+        kwargs = {}
+        for k in e.keywords:
+            if k.arg is None:
+                kwargs.update(self.native(dict, (self.ev(k.value, env),), {}, e))
+            else:
+                kwargs[k.arg] = self.ev(k.value, env)
+        if isinstance(fn, _PMPkgClass):
+            if fn.qual == self.rc.qual:
+                if len(args) > len(self.slots) or any(k not in self.slots for k in kwargs):
+                    raise _PMRaise(TypeError('constructor arguments'))
+                slots = dict(zip(self.slots, args))
+                for k, v in kwargs.items():
+                    if k in slots:
+                        raise _PMRaise(TypeError('constructor arguments'))
+                    slots[k] = v
+                if set(slots) != set(self.slots):
+                    raise _PMRaise(TypeError('constructor arguments'))
+                return _PMBuilt(slots, e)
+            sub = self.p.is_subclass(fn.qual, 'builtins.BaseException')
+            if sub:
+                return _PMPkgExc(fn.qual)
+            raise _OutOfModel('construction of %s' % fn.qual)
+        if isinstance(fn, _PMSource):
+            self.sources += 1
+            return _PM_SOURCES[fn.qual](self.items)
+        if isinstance(fn, (_PMPkgExc, _PMBuilt)) or not callable(fn):
+            raise _OutOfModel('call %s' % short(e, 60))
+        self.callnode = e
+        return self.native(fn, args, kwargs, e)
+
+    # -- statements
+    def bind(self, t, v, env):
+        if isinstance(t, ast.Name):
+            env[t.id] = v
+        elif isinstance(t, (ast.Tuple, ast.List)):
+            vals = self.native(list, (v,), {}, t)
+            star = [i for i, x in enumerate(t.elts) if isinstance(x, ast.Starred)]
+            if star:
+                raise _OutOfModel('starred target %s' % short(t, 40))
+            if len(vals) != len(t.elts):
+                raise _PMRaise(ValueError('unpack'))
+            for x, y in zip(t.elts, vals):
+                self.bind(x, y, env)
+        elif isinstance(t, ast.Subscript):
+            obj = self.ev(t.value, env)
+            i = self.index(t.slice, env)
+            if not isinstance(obj, (dict, list)):
+                raise _OutOfModel('store into %s' % short(t, 40))
+
+            def store():
+                obj[i] = v
+            self.native(store, (), {}, t)
+        else:
+            raise _OutOfModel('store into %s' % short(t, 40))
+
+    def matches(self, value, t) -> bool:
+        if isinstance(t, tuple):
+            return any(self.matches(value, x) for x in t)
+        if isinstance(t, type) and issubclass(t, BaseException):
+            if isinstance(value, BaseException):
+                return isinstance(value, t)
+            sub = self.p.is_subclass(value.qual, 'builtins.' + t.__name__)
+            if sub is None:
+                raise _OutOfModel('is %s a %s?' % (value.qual, t.__name__))
+            return sub
+        if isinstance(t, _PMPkgClass):
+            if isinstance(value, BaseException):
+                return False
+            sub = self.p.is_subclass(value.qual, t.qual)
+            if sub is None:
+                raise _OutOfModel('is %s a %s?' % (value.qual, t.qual))
+            return sub
+        raise _OutOfModel('exception filter')
+
+    def block(self, stmts, env):
+        for s in stmts:
+            self.stmt(s, env)
+
+    def stmt(self, s, env):
+        self.tick(s)
+        if isinstance(s, ast.Expr):
+            if not isinstance(s.value, ast.Constant):
+                self.ev(s.value, env)
+        elif isinstance(s, ast.Assign):
+            v = self.ev(s.value, env)
+            for t in s.targets:
+                self.bind(t, v, env)
+        elif isinstance(s, ast.AnnAssign):
+            if s.value is not None:
+                self.bind(s.target, self.ev(s.value, env), env)
+        elif isinstance(s, ast.AugAssign):
+            load = ast.copy_location(ast.BinOp(left=_as_load(s.target), op=s.op, right=s.value), s)
+            self.bind(s.target, self.ev(load, env), env)
+        elif isinstance(s, ast.Delete):
+            for t in s.targets:
+                if isinstance(t, ast.Name):
+                    if t.id not in env:
+                        raise _PMRaise(UnboundLocalError(t.id))
+                    del env[t.id]
+                elif isinstance(t, ast.Subscript):
+                    obj = self.ev(t.value, env)
+                    i = self.index(t.slice, env)
+                    if not isinstance(obj, (dict, list)):
+                        raise _OutOfModel('del %s' % short(t, 40))
+                    self.native(self.logged_method(obj, '__delitem__', s), (i,), {}, s)
+                else:
+                    raise _OutOfModel('del %s' % short(t, 40))
+        elif isinstance(s, ast.If):
+            self.block(s.body if self.ev(s.test, env) else s.orelse, env)
+        elif isinstance(s, ast.For):
+            it = self.native(iter, (self.ev(s.iter, env),), {}, s.iter)
+            broke = False
+            while True:
+                self.tick(s)
+                try:
+                    item = self.native(next, (it,), {}, s.iter)
+                except _PMRaise as r:
+                    if isinstance(r.value, StopIteration):
+                        break
+                    raise
+                self.bind(s.target, item, env)
+                try:
+                    self.block(s.body, env)
+                except _PMBreak:
+                    broke = True
+                    break
+                except _PMContinue:
+                    continue
+            if not broke:
+                self.block(s.orelse, env)
+        elif isinstance(s, ast.While):
+            broke = False
+            while self.ev(s.test, env):
+                try:
+                    self.block(s.body, env)
+                except _PMBreak:
+                    broke = True
+                    break
+                except _PMContinue:
+                    continue
+            if not broke:
+                self.block(s.orelse, env)
+        elif isinstance(s, ast.Try):
+            try:
+                try:
+                    self.block(s.body, env)
+                except _PMRaise as r:
+                    for h in s.handlers:
+                        if h.type is None or self.matches(r.value, self.ev(h.type, env)):
+                            if h.name:
+                                env[h.name] = r.value
+                            env.setdefault('$exc', []).append(r.value)
+                            try:
+                                self.block(h.body, env)
+                            finally:
+                                env['$exc'].pop()
+                                if h.name:
+                                    env.pop(h.name, None)
+                            break
+                    else:
+                        raise
+                else:
+                    self.block(s.orelse, env)
+            finally:
+                if s.finalbody:
+                    self.block(s.finalbody, env)
+        elif isinstance(s, ast.Raise):
+            if s.exc is None:
+                cur = env.get('$exc')
+                if not cur:
+                    raise _PMRaise(RuntimeError('No active exception to reraise'))
+                raise _PMRaise(cur[-1])
+            v = self.ev(s.exc, env)
+            if s.cause is not None:
+                self.ev(s.cause, env)
+            if isinstance(v, _PMPkgClass):
+                v = _PMPkgExc(v.qual)
+            elif isinstance(v, type) and issubclass(v, BaseException):
+                v = v()
+            if not isinstance(v, (_PMPkgExc, BaseException)):
+                raise _OutOfModel('raise %s' % short(s.exc, 60))
+            raise _PMRaise(v)
+        elif isinstance(s, ast.Return):
+            raise _PMReturn(None if s.value is None else self.ev(s.value, env))
+        elif isinstance(s, ast.Break):
+            raise _PMBreak()
+        elif isinstance(s, ast.Continue):
+            raise _PMContinue()
+        elif isinstance(s, ast.Pass):
+            pass
+        elif isinstance(s, (ast.Import, ast.ImportFrom)):
+            import importlib
+            for al in s.names:
+                modname = al.name if isinstance(s, ast.Import) else (s.module or '')
+                if modname not in _PM_MODULES or (isinstance(s, ast.ImportFrom) and (s.level or al.name.startswith('_'))):
+                    raise _OutOfModel('local import of %s' % modname)
+                m = importlib.import_module(modname)            # stdlib only (tabled); never the analysed tree
+                if isinstance(s, ast.Import):
+                    env[al.asname or al.name] = _PMModule(m)
+                elif hasattr(m, al.name):
+                    env[al.asname or al.name] = getattr(m, al.name)
+                else:
+                    raise _OutOfModel('local import of %s.%s' % (modname, al.name))
+        elif isinstance(s, ast.Assert):
+            pass
+        else:
+            raise _OutOfModel('%s statement' % type(s).__name__.lower())
+
+
+def _as_load(t):
+    t2 = ast.parse(unparse(t), mode='eval').body
+    return t2
+
+
+def _ordered_subsets(names):
+    import itertools
+    for n in range(len(names) + 1):
+        for combo in itertools.permutations(names, n):
+            yield combo
+
+
+def r13_all_parsed_params_match(run):
+    """The params a media range is built with are ALL the parameters parsed from the header text minus exactly the key 'q',
+    wherever `q` stands among them (position-dependent filtering - cutting at q, slicing the items, takewhile - is a violation).
+    W: quality('text/html', 'text/html;q=0.5;level=1, text/html;q=0.2') -> 0.5 instead of 0.2."""
+    p = run.project
+    rc = p.cls(MEDIATYPES + '._MediaRange')
+    f = p.func(MEDIATYPES + '._MediaRange.parse')
+    run.use(f)
+    slots = _ctor_slots(p, rc)
+    if 'params' not in slots:
+        raise AnchorError('%s: no constructor slot named params (%s)' % (rc.qual, slots))
+    if not any(isinstance(c, ast.Call) and isinstance(p.resolve_callable(f, c.func), Func) and p.resolve_callable(f, c.func).qual in _PM_SOURCES
+               for c in walk_self(f.node)):
+        raise AnchorError('%s does not call the header helper (%s)' % (f.qual, ', '.join(sorted(q.rsplit('.', 1)[-1] for q in _PM_SOURCES))))
+    if f.nested:
+        raise UnknownIdiom('%s has nested functions' % f.qual)
+    pm = _ParseModel(p, f, rc, slots)
+    values = {'a': '1', 'b': 'x y', 'q': '0.5'}
+    bad: Dict[str, Tuple[ast.AST, list]] = {}
+    n_built = 0
+    for names in _ordered_subsets(('a', 'q', 'b')):
+        items = [(k, values[k]) for k in names]
+        shown = ';'.join('%s=%s' % kv for kv in items) or '(no parameters)'
+        try:
+            kind, val = pm.run(items)
+        except _OutOfModel as why:
+            raise UnknownIdiom('%s: %s (evaluating the parameters %s)' % (f.qual, why, shown))
+        if pm.sources != 1:
+            raise UnknownIdiom('%s: the header helper is called %d times on one input' % (f.qual, pm.sources))
+        if kind == 'raised':
+            continue            # which inputs are rejected is decided by R2 / R11
+        if not isinstance(val, _PMBuilt):
+            raise UnknownIdiom('%s returns something that is not a range built by the constructor (parameters %s)' % (f.qual, shown))
+        n_built += 1
+        got = val.slots['params']
+        if not isinstance(got, dict):
+            raise UnknownIdiom('%s: the params slot receives a %s' % (f.qual, type(got).__name__))
+        want = {k: v for k, v in items if k != 'q'}
+        what = "the range is built with every parsed parameter but the weight: 't/s;%s' -> params %s" % (shown, sorted(want))
+        if got == want:
+            run.ok(what, f.loc(val.call), 't/s;%s' % shown)
+            continue
+        lost = [k for k in want if k not in got]
+        culprit = next((n for n, k in pm.removed if k != 'q'), None) if lost else None
+        cons = culprit if culprit is not None else val.call
+        key = unparse(cons)
+        if key not in bad:
+            bad[key] = (cons, ["parsed parameters (in header order): %s" % shown, 'params of the range built: %s, required: %s' % (got, want)]
+                        + (['parameter(s) %s dropped' % ', '.join(lost)] if lost else [])
+                        + (["'q' is still among the parameters (it would be matched like a media type parameter)"] if 'q' in got else []))
+    for key, (cons, wit) in sorted(bad.items()):
+        run.fail('every parsed parameter other than q takes part in matching: the params of the range are the parsed parameters minus '
+                 "exactly 'q', wherever q stands", f, cons, where=f.loc(cons), witness=wit, runtime_witness=_R13_WITNESS)
+    if not n_built:
+        raise AnchorError('%s builds no range on the model inputs' % f.qual)
+
+
 class _ModFunc:
     """minimal Func stand-in for module-level resolution"""
 
@@ -4890,3 +5878,7 @@ def check(run):
     run.rule('R7', _safe(r7_resolve_by_content_type), 'get_media()/render_body() of both flavours resolve by the content type itself and the options default', floor=12)
     run.rule('R11', _safe(r11_quality_stored_as_parsed), 'the weight stored for a range is the float parsed from the q text itself: validated, '
              'never rounded / truncated / scaled between float() and the constructor slot', floor=4)
+    run.rule('R12', _safe(r12_lookups_through_resolver), 'every consumer of a Handlers mapping (options.media_handlers) obtains its handler '
+             'through _resolve(); a plain mapping read (.get / [...] / .items / .values / .data) outside falcon/media/handlers.py is a violation', floor=12)
+    run.rule('R13', _safe(r13_all_parsed_params_match), '_MediaRange.parse() evaluated on every ordered subset of {a, q, b}: the range is built with the '
+             "parsed parameters minus exactly 'q' - no position-dependent filtering", floor=1)
